@@ -1851,12 +1851,9 @@ class LangServer:
         in the configuration file or no configuration file is present
         """
         # Recursively add sub-directories that only match Fortran extensions
-        if len(self.source_dirs) != 1:
-            return None
         # `source_dirs` and `excl_paths` hold resolved paths
         root_path = str(Path(self.root_path).resolve())
-        if root_path not in self.source_dirs:
-            return None
+        # An excluded root, as any excluded directory, excludes its own files only
         self.source_dirs = set()
         for root, dirs, files in os.walk(root_path):
             # Match not found
